@@ -217,7 +217,7 @@ def _c13_oracle(c, i):
 
 
 PROPS["C13"] = {
-    "lean": ["CocoVerif.Props.C13"],
+    "lean": ["CocoVerif.Props.C13", "CocoVerif.Props.C13Subst"],
     "lean_extra": B09_LEAN_EXTRA + ["CocoVerif.Props.Lemmas.ProcBank"],
     "suites": [
         {"name": "b09", "relevant": b09_ok_with_deps, "oracle": _c13_oracle, "classify": c13_classify},
